@@ -23,6 +23,8 @@ const themisPrefix = "github.com/cossacklabs/themis/gothemis"
 
 // Program is the resolved program every rule works on.
 type Program struct {
+	stableG map[*ssa.Global]bool
+	stableF map[*ssa.Function]bool
 	RepoDir  string
 	Fset     *token.FileSet
 	Roots    []*packages.Package
